@@ -71,7 +71,7 @@ package sidx
 //@ spec func keysOrdered(r *QueryResponse, asc bool) bool = forall i, j :: 0 <= i && i < j && j < len(r.Keys) ==> before(asc, r.Keys[i], r.Keys[j])
 //@ func QueryResponseHeap.mergeWithHeap
 //@   mode int
-//@   timeout 30
+//@   timeout 120
 //@   requires qrh != nil && pidx(qrh) == 0 && limit >= 0
 //@   requires listOK(qrh) && allValid() && topFirst(qrh)
 //@   requires sortedInputs: allSorted()
